@@ -62,7 +62,12 @@ def scenario_for(seed, index, tier):
     names = ['username', 'access_token', 'client_token', 'profile_id',
              'profile_name']
     for i, n in enumerate(names):
-        fields[n] = ('init-%s' % n) if mask & (1 << i) else None
+        # an absent field is None - or blank (a saved session with an empty
+        # entry): neither counts as present
+        # (only the three token fields: the profile's own notion of
+        # "populated" is `is not None`, which C19 does not go into)
+        fields[n] = ('init-%s' % n) if mask & (1 << i) else \
+            (None if i >= 3 or rng.random() < 0.75 else '')
     ops = []
     for _ in range(rng.randint(1, 8)):
         op = rng.choice(OPS)
